@@ -40,7 +40,9 @@ def run(chk, tier, seed, replay):
                         chk.mismatch(case, {"what": bad})
         return
     with tlc.Scratch("c16") as s:
-        cfgs = ["MC_IO_n1.cfg", "MC_IO_n2.cfg"] + (["MC_IO_n3.cfg", "MC_IO_n4.cfg", "MC_IO_n5.cfg"] if tier == "thorough" else [])
+        # *_unb_*: complete state graph of the file-system model for several file kinds at once (no depth bound, history hidden
+        # by a VIEW, inductive step properties checked on every transition): one emitted history per TRANSITION
+        cfgs = ["MC_IO_n1.cfg", "MC_IO_n2.cfg", "MC_IO_unb_a.cfg"] + (["MC_IO_n3.cfg", "MC_IO_n4.cfg", "MC_IO_n5.cfg", "MC_IO_unb_b.cfg"] if tier == "thorough" else [])
         for cfg in cfgs:
             out, r = generate(chk, "fs_" + cfg[6:-4], "MC_IO", cfg, s, workers=16)
             hs = tlc.read_emitted(out)
